@@ -90,6 +90,7 @@ Ev(e, en, cs) ==
     [] e.k = "bin"   -> LET a == Ev(e.a, en, cs) b == Ev(e.b, en, cs)
                         IN R(BinOp(e.op, a.v, b.v), a.o \o b.o)
     [] e.k = "not"   -> LET a == Ev(e.a, en, cs) IN R(BoolV(~Truthy(a.v)), a.o)
+    [] e.k = "paren" -> Ev(e.a, en, cs)      \* redundant parentheses mean nothing (C12)
     [] e.k = "and"   -> LET a == Ev(e.a, en, cs)
                         IN IF Truthy(a.v) THEN LET b == Ev(e.b, en, cs) IN R(b.v, a.o \o b.o) ELSE a
     [] e.k = "or"    -> LET a == Ev(e.a, en, cs)
